@@ -21,11 +21,12 @@ from icalendar.timezone import tzp
 UTC = timezone.utc
 STARTS = ("absent", "date", "floating", "utc", "zoned-dst", "zoned", "zoned-dateutil", "fixed-offset")
 ENDS = ("absent", "explicit", "dur-days", "dur-time", "dur-zero")
-TRIGGERS = ("absent", "PT0S", "-PT15M", "PT5H", "-P1D", "P1D", "abs-utc", "abs-zoned")
+TRIGGERS = ("absent", "PT0S", "-PT15M", "PT5H", "-P1D", "P1D", "abs-utc", "abs-zoned", "-P7D", "P14D", "-PT1H0M22S")
 RELATED = (None, "START", "END", "end", "Start")  # unquoted parameter values are case-insensitive
-REPDUR = ((None, None), (0, "PT5M"), (2, "PT5M"), (2, None), (None, "PT5M"), (1, "P1D"), (3, "PT24H"), (2, "PT0S"))
+REPDUR = ((None, None), (0, "PT5M"), (2, "PT5M"), (2, None), (None, "PT5M"), (1, "P1D"), (3, "PT24H"), (2, "PT0S"), (1, "P7D"), (2, "PT45S"))
 TD = {"PT0S": timedelta(0), "-PT15M": timedelta(minutes=-15), "PT5H": timedelta(hours=5), "-P1D": timedelta(days=-1),
-      "P1D": timedelta(days=1), "PT5M": timedelta(minutes=5), "PT24H": timedelta(hours=24)}
+      "P1D": timedelta(days=1), "PT5M": timedelta(minutes=5), "PT24H": timedelta(hours=24), "-P7D": timedelta(days=-7),
+      "P14D": timedelta(days=14), "-PT1H0M22S": timedelta(hours=-1, seconds=-22), "P7D": timedelta(days=7), "PT45S": timedelta(seconds=45)}
 TD["PT0S"] = timedelta(0)
 DOCUMENTED = (IncompleteAlarmInformation, IncompleteComponent, InvalidCalendar)
 
@@ -135,13 +136,16 @@ def run_case(case):
     _, provider, path, cname, sk, ek, alarms = case[:7]
     env.use_provider(provider)
     comp, start, end, dur, specs = build(case)
-    if path in ("parsed", "parsed+"):
+    if path in ("parsed", "parsed+", "parsedW"):
         cls = Event if cname == "VEVENT" else Todo
         data = comp.to_ical()
         if path == "parsed+":  # RFC 5545: dur-value = (["+"] / "-") "P" ... - the same text with explicit plus signs
             data = re.sub(rb"((?:TRIGGER|DURATION)[^:\r\n]*:)(P)", rb"\1+\2", data)
+        if path == "parsedW":  # dur-week: whole weeks written in the week form (-P7D == -P1W)
+            data = re.sub(rb"((?:TRIGGER|DURATION)[^:\r\n]*:-?)P(\d+)D(?=\r)",
+                          lambda m: m.group(0) if int(m.group(2)) % 7 or m.group(2) == b"0" else m.group(1) + b"P%dW" % (int(m.group(2)) // 7), data)
         comp = cls.from_ical(data)
-    if path in ("parsed", "parsed+") and sk == "zoned-dateutil":
+    if path in ("parsed", "parsed+", "parsedW") and sk == "zoned-dateutil":
         # after parsing the value carries the ACTIVE provider's tzinfo for Europe/Berlin: "plus" is that provider's addition
         start = tzp.localize(start.replace(tzinfo=None), "Europe/Berlin")
         if end is not None:
@@ -219,8 +223,8 @@ REDUCED = [(t, r, rd) for t in ("-PT15M", "PT5H", "-P1D", "abs-utc") for r in (N
 
 
 def run(ctx):
-    ctx.rule = ("E-enum: {VEVENT,VTODO} x 8 start kinds x 5 end kinds (incl. a zero DURATION) x all single alarms TRIGGER(8) x RELATED(5) x "
-                "(REPEAT,DURATION)(8, incl. a zero DURATION) x {API-built, parsed, parsed with explicit plus signs on durations} x {zoneinfo, pytz}; plus all ordered pairs over a reduced menu of "
+    ctx.rule = ("E-enum: {VEVENT,VTODO} x 8 start kinds x 5 end kinds (incl. a zero DURATION) x all single alarms TRIGGER(11) x RELATED(5) x "
+                "(REPEAT,DURATION)(10, incl. a zero DURATION, whole weeks, seconds) x {API-built, parsed, parsed with explicit plus signs on durations, parsed with whole weeks in week form} x {zoneinfo, pytz}; plus all ordered pairs over a reduced menu of "
                 f"{len(REDUCED)} alarm shapes" + ("" if ctx.quick else " and all triples over 8 shapes") +
                 "; E-hist: the alarms of a component handed to the Alarms object after the parent, before it, or partly with it (add_alarm / add_component alternating): same times. non-trivial = at least one alarm has a TRIGGER.")
     ctx.bounds = {"starts": STARTS, "ends": ENDS, "triggers": TRIGGERS, "related": [str(r) for r in RELATED],
@@ -231,7 +235,7 @@ def run(ctx):
 
     def gen():
         for provider in env.PROVIDERS:
-            for path in ("api", "parsed", "parsed+"):
+            for path in ("api", "parsed", "parsed+", "parsedW"):
                 for cname in ("VEVENT", "VTODO"):
                     for sk in STARTS:
                         for ek in ENDS:
